@@ -67,6 +67,7 @@ def allorfs (j : Json) : R Json := do
     | .null => pure none
     | v => do pure (some (← locOfJson v))
   let impl ← listOf locOfJson (fldD j "impl" (jArr []))
+  let tbl := if intFD j "table" 11 = 1 then (Gen.forwardTable1, Gen.stopCodons1) else (Gen.forwardTable11, Gen.stopCodons11)
   let rp := recordParts L genes area
   let areas := orfAreas L rp.1 rp.2 minLen pad
   let locs := findAllOrfsRec rec_ genes area minLen pad
@@ -81,7 +82,10 @@ def allorfs (j : Json) : R Json := do
                   jArr (p.2.2.map fun g => jArr [toJson g.start, toJson g.end])])),
                ("model", match locs with
                   | none => Json.null
-                  | some ls => jArr (ls.map fun l => jObj [("loc", locToJson l), ("label", Json.str (orfLabel rec_.length l))])),
+                  | some ls => jArr (ls.map fun l => jObj [("loc", locToJson l), ("label", Json.str (orfLabel rec_.length l)),
+                      ("translation", match featureTranslation tbl.1 tbl.2 (extract complement rec_ l) with
+                        | some t => Json.str (String.ofList t)
+                        | none => Json.null)])),
                ("in_gaps", toJson inGaps),
                ("overlap_ok", toJson (impl.all (locOverlapOk (genes.map (·.loc)) pad))),
                ("avoids", toJson (impl.all (locAvoids allGenes pad))),
